@@ -13,6 +13,8 @@ PRELUDE = '''#include <Fastor/Fastor.h>
 #include <cstdint>
 using namespace Fastor;
 extern "C" void fsv_assume(int);
+template<class X, typename std::enable_if<std::is_arithmetic<X>::value,bool>::type=0> static inline X fsv_scalar(X x){return x;}
+template<class X, typename std::enable_if<!std::is_arithmetic<X>::value,bool>::type=0> static inline typename X::scalar_type fsv_scalar(const X& x){return x.data()[0];}
 '''
 
 
@@ -157,6 +159,7 @@ def model_inputs(case, model, fill=0):
             continue
         bs = b''
         for i in range(a.n):
+            if i in a.fixed and a.role != 'out': bs += enc_elem(a, a.fixed[i]); continue
             v = model.get(a.var(i), None)
             if a.role == 'out' or v is None:
                 if isinstance(a.init, list) and a.role != 'out':
@@ -184,8 +187,13 @@ def rand_inputs(case, rng, style):
         if a.role == 'out': inp[a.name] = b'\xab' * (a.n * a.es)
         elif isinstance(a.init, list):
             inp[a.name] = b''.join(struct.pack('<f' if a.w == 32 else '<d', float(v)) if a.kind == 'f' else (int(v) & ((1 << a.w) - 1)).to_bytes(a.es, 'little') for v in a.init)
-        else: inp[a.name] = b''.join(rand_elem(rng, a, style) for _ in range(a.n))
+        else: inp[a.name] = b''.join((enc_elem(a, a.fixed[i]) if i in a.fixed else rand_elem(rng, a, style)) for i in range(a.n))
     return inp
+
+
+def enc_elem(a, v):
+    if a.kind == 'f': return struct.pack('<f' if a.w == 32 else '<d', float(v))
+    return (int(v) & ((1 << a.w) - 1)).to_bytes(a.es, 'little')
 
 
 def subst_map(case, inp, dom_name, skip_scalars=False):
@@ -198,6 +206,7 @@ def subst_map(case, inp, dom_name, skip_scalars=False):
         if a.role == 'out' or isinstance(a.init, list): continue
         bs = inp[a.name]
         for i in range(a.n):
+            if i in a.fixed: continue
             raw = int.from_bytes(bs[i * a.es:(i + 1) * a.es], 'little')
             if a.kind == 'f' and dom_name == 'real':
                 subs.append((z3.Real(a.var(i)), z3.RealVal(Fraction(bits2f(raw, a.w)))))
@@ -266,7 +275,7 @@ def run_case(mod, case, opts):
             continue
         if o.depth is not None: res['depth_max'] = max(res['depth_max'], o.depth[0])
         hyp = list(o.hyp) + list(getattr(o.kp.dom, 'hyp', []))
-        r, m, dt, who = smt.prove(o.pc, hyp, o.goal, timeout_s=opts.get('timeout', case.timeout), logic=case.smt_logic(), portfolio=case.portfolio)
+        r, m, dt, who = smt.prove(o.pc, hyp, o.goal, timeout_s=opts.get('timeout', case.timeout), logic=case.smt_logic(), portfolio=case.portfolio, order_only=getattr(case, 'order_only', False))
         solver_t += dt
         if r == 'unsat': res['discharged'] += 1
         elif r == 'sat': res['sat'].append({'label': o.label, 'note': o.note, 'model': m, 'kind': o.kind})
